@@ -7,7 +7,12 @@ Case kinds
   ("loop", yaml_text, attr, method, term)
                                 Processor.get_nodes over the five candidate loops of
                                 _get_nodes_by_search, plain and inverted, against
-                                SearchLoops.v (which candidates are yielded)
+                                SearchLoops.v (which candidates are yielded) on the
+                                candidates the harness reads off the real document;
+                                the harness's candidates against the EXTRACTED
+                                SearchCands.sc_cands_doc on the encoded document; and
+                                the real yields against sc_run . sc_cands_doc
+                                (document -> candidates -> loop, all in Coq)
 A haystack `hay` is ("py", tagged-value) -- a plain Python value -- or
 ("yaml", text) -- the scalar ruamel.yaml really loads from `text`.
 """
@@ -32,14 +37,19 @@ CONFIG = {
              "text with blanks/signs/underscores, words sharing prefixes, regex fragments); then the five candidate "
              "loops of Processor._get_nodes_by_search (list elements, AoH, hash keys on '.', hash attribute, hash "
              "descendant, set members, scalar self) on generated documents x attribute x operator x term, plain and "
-             "inverted.  non-trivial = haystack is not None and needle non-empty (sm) / at least one candidate "
+             "inverted -- three ties per document: the loops of SearchLoops.v on the candidates the harness reads "
+             "off the real document; those candidates against the extracted SearchCands.sc_cands_doc on the "
+             "encoded document (every loop case: list '.', AoH key-name shortcut incl. null elements, named "
+             "attribute, descendant path, hash keys / attribute / descendants, set, scalar); and the real yields "
+             "against sc_run . sc_cands_doc (document -> candidates -> loop entirely in Coq).  non-trivial = haystack is not None and needle non-empty (sm) / at least one candidate "
              "(loop); distinct = distinct (operator, needle, haystack) or (document, attribute, operator, term)."),
     "trusted_base": [
         "modelled, not verified: yamlpath/common/searches.py Searches.search_matches, yamlpath/common/nodes.py "
         "Nodes.typed_value, the candidate loops of yamlpath/processor.py Processor._get_nodes_by_search",
         "oracles (Section variables in Coq; finite tables of the real library's answers in the correspondence run): "
-        "ast.literal_eval, re.compile(p).search(s), str() of containers, and for the descendant-search sub-case the "
-        "nodes Processor._get_required_nodes yields for the attribute path (the evaluator is modelled in Eval.v)",
+        "ast.literal_eval, re.compile(p).search(s), str() of containers; the nodes Processor._get_required_nodes yields "
+        "for a descendant attribute path are computed by the evaluator model (Eval.ev) inside SearchCands.sc_cands_doc "
+        "and compared with the real evaluator's on every case",
         "floats are exact rationals carrying their repr(); NaN and +-inf are outside the generators; str.lower() is "
         "ASCII lower-casing (no non-ASCII character lower-cases to a letter of 'true'/'false')",
     ],
@@ -378,7 +388,7 @@ def loop_candidates(case):
         for ele in data:
             if attr == ".":
                 if is_aoh:
-                    out.append("(key %s %s)" % ("true" if term in ele else "false", hv(ele)))
+                    out.append("(key %s %s)" % ("true" if (ele is not None and term in ele) else "false", hv(ele)))
                 else:
                     out.append("(key none %s)" % hv(ele))
             elif isinstance(ele, dict) and attr in ele:
@@ -409,8 +419,92 @@ def loop_requests(case):
                 except Exception:  # noqa
                     pass
     rt = oracles.re_table(pairs)
-    return ["(search-loop %s %s %s %s (%s) %s %s)" % (kind, inv, method, hexs(term), " ".join(cands), lt, rt)
-            for inv in ("false", "true")]
+    doc_sexp, nstr = loop_doc_tables(case)
+    return (["(search-loop %s %s %s %s (%s) %s %s)" % (kind, inv, method, hexs(term), " ".join(cands), lt, rt)
+             for inv in ("false", "true")]
+            + ["(search-cands %s %s %s %s %s %s)" % (hexs(attr), hexs(term), doc_sexp, lt, rt, nstr)]
+            + ["(search-doc %s %s %s %s %s %s %s %s)" % (inv, method, hexs(attr), hexs(term), doc_sexp, lt, rt, nstr)
+               for inv in ("false", "true")])
+
+
+def loop_doc_tables(case):
+    """The searched node encoded for the model (object identities, anchors, tags) and str() of its containers."""
+    import docenc
+    doc, data, kind, n = loop_setup(case)
+    c = _ENV["cache"]
+    k = ("enc", case[1])
+    if k not in c:
+        sexp, enc = docenc.encode(data)
+        ents = []
+
+        def walk(x):
+            if isinstance(x, dict):
+                ents.append("(i%d %s)" % (enc.oids[id(x)], hexs(str(x))))
+                for v in x.values():
+                    walk(v)
+            elif isinstance(x, (list, tuple)):
+                ents.append("(i%d %s)" % (enc.oids[id(x)], hexs(str(x))))
+                for v in x:
+                    walk(v)
+            elif is_set(x):
+                ents.append("(i%d %s)" % (enc.oids[id(x)], hexs(str(x))))
+        walk(data)
+        c[k] = (sexp, "(%s)" % " ".join(ents), enc)
+    return c[k][0], c[k][1]
+
+
+class _DescRaised(Exception):
+    pass
+
+
+def desc_nodes_strict(ele, attr, first_only):
+    """The nodes of the descendant search as the loops consume them: the list loop stops the generator after
+    its first item (a later exception is never seen), the hash loop may run it to its end."""
+    E = _ENV
+    from yamlpath.exceptions import YAMLPathException
+    items = []
+    try:
+        for n in E["Processor"](E["log"], ele).get_nodes(E["YAMLPath"](attr), mustexist=True):
+            items.append(n.node)
+    except YAMLPathException as ex:
+        if "Required YAML Path does not match" in str(ex) and not items:
+            return []                      # get_nodes(mustexist=True) reports an empty result this way
+        if first_only and items:
+            return items
+        raise _DescRaised()
+    return items
+
+
+def cands_line(case):
+    """The harness's own candidate computation in the output format of ocaml/drv_sc.ml."""
+    _, text, attr, method, term = case
+    doc, data, kind, n = loop_setup(case)
+    try:
+        if kind == "list":
+            is_aoh = all(isinstance(e, dict) or e is None for e in data)
+            out = []
+            for ele in data:
+                if attr == ".":
+                    if is_aoh:
+                        out.append("(key %s %s)" % ("true" if (ele is not None and term in ele) else "false",
+                                                    hay_sexp(ele)))
+                    else:
+                        out.append("(key none %s)" % hay_sexp(ele))
+                elif isinstance(ele, dict) and attr in ele:
+                    out.append("(attr %s)" % hay_sexp(ele[attr]))
+                else:
+                    out.append("(desc (%s))" % " ".join(hay_sexp(d) for d in desc_nodes_strict(ele, attr, True)))
+        elif kind in ("keys", "set"):
+            out = [hay_sexp(k) for k in data]
+        elif kind == "attr":
+            out = [hay_sexp(data[attr])]
+        elif kind == "desc":
+            out = [hay_sexp(d) for d in desc_nodes_strict(data, attr, False)]
+        else:
+            out = [hay_sexp(data)]
+    except _DescRaised:
+        return "(raise ype)"
+    return "(ok (%s))" % " ".join([kind] + out)
 
 
 def impl_yields(doc, data, kind, path):
@@ -443,7 +537,9 @@ def loop_observe(case):
             out.append("(ok ())")          # mustexist: no result at all
         except Exception as e:  # noqa
             out.append(exc_line(e))
-    return out
+    # the harness's candidates (read off the real document, descendants by the real evaluator) for the
+    # extracted SearchCands.sc_cands_doc; the real yields once more for sc_run . sc_cands_doc
+    return out + [cands_line(case)] + out
 
 
 def parse_ok(obs_line):
@@ -638,11 +734,9 @@ def loop_cases(tier, seed):
 
 
 def loop_case_ok(case):
-    """Inside the modelled domain: the path text parses back to the intended search terms, and no null
-    element of an Array-of-Hashes meets a search on '.' (`term in None`: DESIGN defect #4, owned by C15)."""
+    """Inside the modelled domain: the path text parses back to the intended search terms.  (A null element
+    of an Array-of-Hashes under a search on '.' is inside it since the repair `ele is not None and term in ele`.)"""
     _, text, attr, method, term = case
-    if attr == "." and text.startswith("[") and "~" in text:
-        return False
     from yamlpath import YAMLPath
     from yamlpath.enums import PathSegmentTypes, PathSearchMethods
     for inv in (False, True):
